@@ -1,10 +1,21 @@
 package main
 
+import "strings"
+
 var propConfigs = map[string]*PropConfig{}
 
 func register(c *PropConfig) { propConfigs[c.ID] = c }
 
 func init() {
+	register(&PropConfig{
+		ID:       "C07",
+		Packages: []string{"./parser/v2", "./generator"},
+		Assume: []string{
+			"Go expressions recorded by the parser are well-formed UTF-8 (Go source must be); for ill-formed bytes the column arithmetic of Add is not claimed",
+			"'every byte position' is read as every position an editor can send: rune starts and the end of each line",
+			"nested maps are modelled by value (no aliasing between the inner maps of the tables)",
+		},
+	})
 	register(&PropConfig{
 		ID:       "C05",
 		Replay:   replayC05,
@@ -42,17 +53,37 @@ func init() {
 	register(&PropConfig{
 		ID: "C13",
 		Replay: func(r *Run, o *Obligation) *ReplayResult {
-			if r.replayCache == nil {
-				r.replayCache = map[string]*ReplayResult{}
+			// the oracle prints one REPLAY-CONFIRMED line per corpus shape that renders wrongly; an
+			// obligation is confirmed by the line of the template it was generated for
+			if r.replayOut == nil {
+				r.replayOut = map[string]string{}
 			}
-			if rr, ok := r.replayCache["C13"]; ok {
-				return rr
+			out, ok := r.replayOut["C13"]
+			if !ok {
+				out, _ = r.runCorpusTest("x_children_shapes", "TestVerifReplayC13")
+				r.replayOut["C13"] = out
 			}
-			out, _ := r.runCorpusTest("x_children_shapes", "TestVerifReplayC13")
-			ok, detail := replayVerdict(out)
-			rr := &ReplayResult{Confirmed: ok, Input: "corpus template /verif/corpus/children-shapes rendered by the real generated code and runtime", Detail: detail}
-			r.replayCache["C13"] = rr
-			return rr
+			input := "corpus template /verif/corpus/children-shapes rendered by the real generated code and runtime"
+			fn := o.Name
+			if i := strings.IndexAny(fn, "$#/"); i >= 0 {
+				fn = fn[:i]
+			}
+			if !strings.HasPrefix(fn, "x_children_shapes.") {
+				return &ReplayResult{Confirmed: false, Input: input, Detail: "no replay oracle for " + fn + " (only the children-shapes corpus has expected outputs)"}
+			}
+			tmpl := strings.TrimPrefix(fn, "x_children_shapes.")
+			// first the case named after the template, then any case that exercises it
+			for _, pat := range []string{"REPLAY-CONFIRMED template " + tmpl + " ", " " + tmpl + " "} {
+				for _, line := range strings.Split(out, "\n") {
+					if i := strings.Index(line, "]"); strings.Contains(line, "REPLAY-CONFIRMED") && i > 0 && strings.Contains(line[:i+1], pat) {
+						return &ReplayResult{Confirmed: true, Input: input, Detail: strings.TrimSpace(line)}
+					}
+				}
+			}
+			if !strings.Contains(out, "REPLAY-") {
+				return &ReplayResult{Confirmed: false, Input: input, Detail: "replay did not run: " + firstLines(out, 6)}
+			}
+			return &ReplayResult{Confirmed: false, Input: input, Detail: "REPLAY-NOT-REPRODUCED template " + tmpl + " renders as specified in the oracle's cases"}
 		},
 		Packages: []string{"."},
 		Corpus:   true,
